@@ -362,7 +362,7 @@ def classify(v: dict) -> str | None:
 	return None
 
 
-PROTOCOLS = '''from collections.abc import Iterator
+PROTOCOLS = '''from collections.abc import Callable, Iterator
 
 
 class Account:
@@ -402,6 +402,54 @@ class Evens:
 
 	def __iter__(self) -> Iterator[int]:
 		return iter([n * 2 for n in range(self.limit)])
+
+
+class Named:
+	tag: int
+
+	def __init__(self) -> None:
+		self.tag = 1
+
+	def describe(self) -> str:
+		return 'named'
+
+	def only_named(self) -> float:
+		return 0.5
+
+
+class Sized:
+	tag: float
+
+	def __init__(self) -> None:
+		self.tag = 2.5
+
+	def describe(self) -> int:
+		return 7
+
+	def only_sized(self) -> list[int]:
+		return [1]
+
+
+class Both(Named, Sized):
+	def __init__(self) -> None:
+		Named.__init__(self)
+
+
+def visit(names: list[str], each: Callable[[str, int], bool] | None, ratio: Callable[[float], None] | None) -> int:
+	n = 0
+	if each:
+		for i, name in enumerate(names):
+			if each(name, i):
+				n = n + 1
+
+	if ratio:
+		ratio(0.5)
+
+	return n
+
+
+def visit_plain(names: list[str], each: Callable[[str, int], bool]) -> int:
+	return 1 if each(names[0], 0) else 0
 
 
 def find(accounts: list[Account], owner: str) -> None | Account:
@@ -453,6 +501,15 @@ def protocols(flag: bool) -> int:
 	t1 = (1, 'a')
 	t2 = ('a', 1)
 	tpick = t1 if flag else t2
+	both = Both()
+	bd = both.describe()
+	bt = both.tag
+	bn = both.only_named()
+	bs = both.only_sized()
+	bl = [both.describe()]
+	bm = {both.tag: len(both.describe())}
+	seen_names = visit(['a', 'bc'], lambda name, rank: len(name) > rank, lambda ratio: None)
+	seen_plain = visit_plain(['a'], lambda name2, rank2: len(name2) > rank2)
 	opt_a = 1 if flag else None
 	opt_b = None if flag else 'x'
 	return total
